@@ -12,11 +12,13 @@ def _configs(tier):
     giant = dict(name='giant', real=8, have=REAL_SW + CPLX, harness=['h_real_giant.c'], flavour='fast', nworkers=6 if tier == 'quick' else 11)
     # the fallback bodies compiled by clang 14 (half of the cases)
     clang = dict(name='all-off-f64-clang', real=8, have=CPLX, libcc='clang', nworkers=3, of=6)
+    o2 = dict(name='all-off-f64-o2', real=8, have=CPLX, libflavour='san-o2', libdrop=['-fno-strict-aliasing'], nworkers=3, of=6)
     if tier == 'quick':
         return [dict(name='all-on-f64', real=8, have=REAL_SW + CPLX), dict(name='all-off-f64', real=8, have=CPLX),
-                dict(name='all-off-f32', real=4, have=CPLX, zero=REAL_SW[::2]), giant, clang]
+                dict(name='all-off-f32', real=4, have=CPLX, zero=REAL_SW[::2]), giant, clang, o2]
     out.append(giant)
     out.append(clang)
+    out.append(o2)
     for real, tag in [(8, 'f64'), (4, 'f32')]:
         out.append(dict(name='all-on-' + tag, real=real, have=REAL_SW + CPLX))
         out.append(dict(name='all-off-' + tag, real=real, have=CPLX, zero=REAL_SW[::2]))
